@@ -335,6 +335,12 @@ impl<'a> PlanBuilder<'a> {
 
         let mut output_plan = Vec::with_capacity(self.plan.len());
 
+        // Operators which have been added to the frontier at some point. An
+        // operator must be scheduled only once, even if one of its inputs was
+        // available initially (eg. supplied by the caller) and is produced
+        // again later by another operator in the plan.
+        let mut scheduled: FxHashSet<NodeId> = FxHashSet::default();
+
         // Initialize frontier with all operators that can be executed
         // from initially-available values.
         let mut frontier: Vec<(NodeId, &OperatorNode)> = Vec::new();
@@ -345,6 +351,7 @@ impl<'a> PlanBuilder<'a> {
                 .all(|id| resolved_values.contains(id))
             {
                 frontier.push((*op_node_id, op_node));
+                scheduled.insert(*op_node_id);
             }
         }
 
@@ -377,7 +384,7 @@ impl<'a> PlanBuilder<'a> {
                     continue;
                 };
                 for (candidate_op_id, candidate_op) in deps {
-                    if frontier.iter().any(|(op_id, _)| op_id == candidate_op_id) {
+                    if scheduled.contains(candidate_op_id) {
                         continue;
                     }
 
@@ -387,6 +394,7 @@ impl<'a> PlanBuilder<'a> {
                         .all(|id| resolved_values.contains(id))
                     {
                         frontier.push((*candidate_op_id, candidate_op));
+                        scheduled.insert(*candidate_op_id);
                     }
                 }
             }
